@@ -15,7 +15,7 @@ partial def toEvents : List Line → List (Option Ev × String) → List (Option
     let push (e : Ev) := toEvents rest ((some e, l.raw) :: acc)
     let bad (_ : Unit) := toEvents rest ((none, l.raw) :: acc)
     match l.site with
-    | "sl.lock" | "ag.yield" | "latch.count_down" => toEvents rest acc
+    | "sl.lock" | "ag.yield" | "latch.count_down" | "latch.inlock" => toEvents rest acc
     | "inv.wait" => push (.inv t .wait)
     | "inv.try" => push (.inv t .tryWait)
     | "inv.cd" => if l.a < 0 then bad () else push (.inv t (.cd l.a.toNat))
